@@ -94,3 +94,40 @@ pub fn guarded<T>(f: impl FnOnce() -> T) -> Result<T, String> {
 pub fn quiet_panics() {
     std::panic::set_hook(Box::new(|_| {}));
 }
+
+
+/// One scratch-taking library call run inside an *exact-size* (or generous) canary-guarded window with
+/// the H4 take log switched on. Appends {"call","decl","base","takes":[[addr-base,len,take]..],"canary"} to `log`.
+pub fn scr_call<BE, R>(
+    exact: bool,
+    decl: usize,
+    fill: u64,
+    name: &str,
+    log: &mut Vec<serde_json::Value>,
+    f: impl FnOnce(&mut poulpy_hal::layouts::Scratch<BE>) -> R,
+) -> R
+where
+    BE: poulpy_hal::layouts::Backend,
+    poulpy_hal::layouts::Scratch<BE>: poulpy_hal::api::ScratchFromBytes<BE>,
+{
+    use poulpy_cpu_ref::hal_defaults::scratch::verif_scratch_trace as tr;
+    use poulpy_hal::api::ScratchFromBytes;
+    let len = if exact { decl } else { decl + (1 << 16) };
+    let mut buf = ABuf::new(len, fill);
+    let snap = buf.snapshot();
+    let base = buf.win().as_ptr() as usize;
+    tr::start();
+    let r = guarded(|| {
+        let scratch = <poulpy_hal::layouts::Scratch<BE> as ScratchFromBytes<BE>>::from_bytes(buf.win_mut());
+        f(scratch)
+    });
+    let takes = tr::stop();
+    let canary = buf.unchanged_except(&snap, &[(0, len)]);
+    let tj: Vec<serde_json::Value> = takes.iter().map(|&(a, l, t)| serde_json::json!([a as i64 - base as i64, l, t])).collect();
+    log.push(serde_json::json!({"call": name, "decl": decl, "len": len, "exact": exact, "takes": tj, "canary": canary,
+        "panic": r.as_ref().err().cloned().unwrap_or_default()}));
+    match r {
+        Ok(v) => v,
+        Err(e) => panic!("{}", e),
+    }
+}
